@@ -214,25 +214,38 @@ class JokerPrior:
                 )
                 raise ValueError(msg)
 
-            if not is_fcm:
-                dist_params = p.owner.op.dist_params(p.owner)
-                # a random-number-generator input anywhere upstream also marks a
-                # random parent (pymc's symbolic random variables, e.g.
-                # pm.Truncated, keep their RandomVariable in an inner graph)
-                if any(
-                    isinstance(v.type, pt.random.type.RandomType)
-                    or (
-                        v.owner is not None
-                        and isinstance(v.owner.op, pt.random.op.RandomVariable)
-                    )
-                    for v in ancestors(dist_params)
-                ):
-                    msg = (
-                        "Priors on the linear parameters (K, v0, etc.) must be "
-                        f"independent Normal distributions: the prior on {name} "
-                        "depends on another random variable"
-                    )
-                    raise ValueError(msg)
+            dist_params = p.owner.op.dist_params(p.owner)
+            if is_fcm:
+                # ...of THIS prior's P and e: stop there, anything else that is
+                # random upstream (a random mean, other period / eccentricity
+                # variables) is not what the helper computes
+                own = [pars["P"], pars["e"]]
+                upstream = [
+                    v
+                    for v in ancestors(dist_params, blockers=own)
+                    if not any(v is x for x in own)
+                ]
+            else:
+                upstream = ancestors(dist_params)
+
+            # a random-number-generator input anywhere upstream also marks a
+            # random parent (pymc's symbolic random variables, e.g.
+            # pm.Truncated, keep their RandomVariable in an inner graph)
+            if any(
+                isinstance(v.type, pt.random.type.RandomType)
+                or (
+                    v.owner is not None
+                    and isinstance(v.owner.op, pt.random.op.RandomVariable)
+                )
+                for v in upstream
+            ):
+                msg = (
+                    "Priors on the linear parameters (K, v0, etc.) must be "
+                    f"independent Normal distributions: the prior on {name} "
+                    "depends on another random variable"
+                    + (" than this prior's P and e" if is_fcm else "")
+                )
+                raise ValueError(msg)
 
         self.pars = pars
 
